@@ -155,6 +155,8 @@ impl Segment {
     // Segment::get_messages_by_offset: "returns exactly the segment's messages with max(offset,start) <= m.offset <=
     // that+count-1, in order" — whichever of disk / unsaved buffer holds them. The arithmetic precondition is the one of
     // its `offset + (count - 1) as u64`.
+    // LINKED: units/read_segment/lemmas.rs, harness [C02.link.read_partition.get_messages_by_offset], proves this contract from the real function
+    // (mirror edits there). The link added the preconditions from `acc_wf` on: the real segment tier needs them, the stub had hidden them.
     #[verifier::external_body]
     pub fn get_messages_by_offset(&self, offset: u64, count: u32) -> (r: Result<Vec<RetainedMessage>, IggyError>)
         requires
@@ -168,6 +170,7 @@ impl Segment {
                                                  max_int(offset as int, self.start_offset as int) + count - 1),
     { unimplemented!() }
     // Segment::get_messages_by_timestamp: the first `count` messages of the segment with timestamp >= start_timestamp
+    // LINKED: units/read_segment/lemmas.rs, harness [C02.link.read_partition.get_messages_by_timestamp] (mirror edits there)
     #[verifier::external_body]
     pub fn get_messages_by_timestamp(&self, start_timestamp: u64, count: usize) -> (r: Result<Vec<RetainedMessage>, IggyError>)
         requires ts_sorted(seg_buf(self)), seg_buf(self).len() + count <= usize::MAX,
